@@ -28,6 +28,12 @@ class Node:
         self.cls = cls
         self.f = fields
 
+    def __hash__(self):
+        return hash(repr(self))
+
+    def __eq__(self, other):
+        return isinstance(other, Node) and repr(self) == repr(other)
+
     def __repr__(self):
         if self.cls in ("LiteralInt", "LiteralFloat"):
             return f"{self.cls}({self.f['value']})"
@@ -141,9 +147,13 @@ BINOP_METHODS = {
 
 
 class Interp:
-    def __init__(self, repo: Repo, classes: dict[str, LClass]):
+    def __init__(self, repo: Repo, classes: dict[str, LClass], primary: str | None = None):
         self.repo = repo
         self.mod = repo.mod(LNODES)
+        self.primary = repo.mod(primary) if primary else None  # module whose functions are interpreted first
+        self.lalias = set()
+        if self.primary is not None:
+            self.lalias = {a for a, t in self.primary.imports.items() if t == LNODES}
         self.classes = classes
         self.depth = 0
         # class-level aliases such as `__truediv__ = __div__`
@@ -390,11 +400,15 @@ class Interp:
         if isinstance(e, ast.Name):
             if e.id in env:
                 return env[e.id]
+            if self.primary is not None and e.id in self.primary.funcs:
+                return self.primary.funcs[e.id]
             if e.id in self.classes:
                 return _Cls(e.id)
             f = self.mod.funcs.get(e.id)
             if f is not None:
                 return f
+            if e.id == "defaultdict":
+                return _Builtin("defaultdict")
             if e.id in ("True", "False", "None"):
                 return {"True": True, "False": False, "None": None}[e.id]
             raise AnalysisError(f"absint: unknown name {e.id}")
@@ -404,6 +418,19 @@ class Interp:
                 return 0
             if d and d.startswith("DataType."):
                 return "DataType." + e.attr
+            if d:
+                parts = d.split(".")
+                if parts[0] in self.lalias and parts[0] not in env:
+                    if len(parts) == 2:
+                        if parts[1] in self.classes:
+                            return _Cls(parts[1])
+                        if parts[1] in self.mod.funcs:
+                            return self.mod.funcs[parts[1]]
+                    if len(parts) == 3 and parts[1] in ("DataType", "Annotation", "PRECEDENCE"):
+                        return 0 if parts[1] == "PRECEDENCE" else f"{parts[1]}.{parts[2]}"
+                    raise AnalysisError(f"absint: unknown member `{d}` of the LNodes module")
+                if d in ("collections.defaultdict",):
+                    return _Builtin("defaultdict")
             base = self.expr(e.value, env)
             if isinstance(base, Node):
                 if e.attr in base.f:
@@ -412,12 +439,20 @@ class Interp:
                     return "DataType.NONE"
                 if e.attr == "precedence":
                     return self.classes[base.cls].precedence
+                if e.attr == "sideeffect":
+                    return self.classes[base.cls].sideeffect
+                if e.attr == "op":
+                    return self.classes[base.cls].op
                 m = self.find_method(base.cls, e.attr)
                 if m is not None:
+                    if any(isinstance(dc, ast.Name) and dc.id == "property" for dc in m.node.decorator_list):
+                        return self.call_func(m.node, [base])
                     return _Bound(base, m)
                 raise AnalysisError(f"absint: {base.cls} has no attribute {e.attr}")
             if isinstance(base, (list, tuple)) and e.attr in ("copy", "index", "append", "extend", "remove"):
                 return _ListMeth(base, e.attr)
+            if isinstance(base, dict) and e.attr in ("items", "keys", "values", "get", "setdefault"):
+                return _DictMeth(base, e.attr)
             raise AnalysisError(f"absint: attribute `{ast.unparse(e)}` not modelled")
         if isinstance(e, ast.UnaryOp):
             v = self.expr(e.operand, env)
@@ -476,6 +511,8 @@ class Interp:
                 return base[idx]
             except (IndexError, KeyError):
                 raise Raised("IndexError")
+            except TypeError as ex:
+                raise AnalysisError(f"absint: subscript failed: {ex}")
         if isinstance(e, (ast.ListComp, ast.GeneratorExp)):
             return self.comp(e, env)
         if isinstance(e, ast.Lambda):
@@ -483,7 +520,16 @@ class Interp:
         if isinstance(e, ast.Call):
             return self.call(e, env)
         if isinstance(e, ast.JoinedStr):
-            return "<fstring>"
+            out = ""
+            for v in e.values:
+                if isinstance(v, ast.Constant):
+                    out += str(v.value)
+                else:
+                    x = self.expr(v.value, env)
+                    out += repr(x) if isinstance(x, Node) else str(x)
+            return out
+        if isinstance(e, ast.Dict):
+            return {self.expr(k, env): self.expr(v, env) for k, v in zip(e.keys, e.values)}
         raise AnalysisError(f"absint: unsupported expression `{ast.unparse(e)[:60]}`")
 
     def comp(self, e, env):
@@ -578,12 +624,21 @@ class Interp:
             return abs(a - b) <= atol + rtol * abs(b)
         if fn in ("abs", "round", "min", "max") and all(isinstance(v, (int, float)) for v in vals):
             return {"abs": abs, "round": round, "min": min, "max": max}[fn](*vals)
+        if fn in ("max", "min") and len(vals) == 1 and isinstance(vals[0], (list, tuple)):
+            return (max if fn == "max" else min)(vals[0])
+        if fn in ("np.asarray", "numpy.asarray", "np.array"):
+            return vals[0]
+        if fn in ("defaultdict", "collections.defaultdict"):
+            import collections
+
+            return collections.defaultdict(list if not e.args or ast.unparse(e.args[0]) == "list" else dict)
         if fn == "hasattr":
             x, name = vals
             return isinstance(x, Node) and (name in x.f or name == "dtype")
         if fn == "type":
             return _Cls(vals[0].cls) if isinstance(vals[0], Node) else type(vals[0])
-        f = self.expr(e.func, env) if fn is None or fn.split(".")[0] in env or fn in self.classes or fn in self.mod.funcs or "." in (fn or "") else None
+        f = self.expr(e.func, env) if fn is None or fn.split(".")[0] in env or fn in self.classes or fn in self.mod.funcs or "." in (fn or "") \
+            or (self.primary is not None and fn in self.primary.funcs) else None
         if f is None:
             raise AnalysisError(f"absint: unknown callee `{fn}`")
         if isinstance(f, _Cls):
@@ -595,6 +650,17 @@ class Interp:
             for p, v in zip([a.arg for a in f.node.args.args], vals):
                 env2[p] = v
             return self.expr(f.node.body, env2)
+        if isinstance(f, _DictMeth):
+            if f.name == "items":
+                return [(k, v) for k, v in f.d.items()]
+            if f.name == "keys":
+                return list(f.d.keys())
+            if f.name == "values":
+                return list(f.d.values())
+            if f.name == "get":
+                return f.d.get(vals[0], vals[1] if len(vals) > 1 else None)
+            if f.name == "setdefault":
+                return f.d.setdefault(vals[0], vals[1] if len(vals) > 1 else None)
         if isinstance(f, _ListMeth):
             if f.name == "copy":
                 return list(f.lst)
@@ -648,6 +714,17 @@ class _Lam:
     def __init__(self, node, env):
         self.node = node
         self.env = env
+
+
+class _DictMeth:
+    def __init__(self, d, name):
+        self.d = d
+        self.name = name
+
+
+class _Builtin:
+    def __init__(self, name):
+        self.name = name
 
 
 class _ListMeth:
